@@ -406,6 +406,9 @@ func Rapid[C any](r *Run, t *testing.T, name, rule string, nQuick, nThorough int
 			return
 		}
 		s.witnesses(t)
+		if t.Failed() {
+			return // a regression witness failed: already recorded as a violation (rapid refuses a failed *testing.T)
+		}
 		n := r.N(nQuick, nThorough) / r.NShards
 		if n < 1 {
 			n = 1
